@@ -512,6 +512,27 @@ def analyse_entries(ck, prog, min_entries):
                 if getattr(ck, "strict_other", False):
                     ck.fail_broken(msg)
                 continue
+            # the look-behind character is compared at its full width: `(unsigned char)p[-1] != '%'` in a wide-character scan takes every
+            # character whose low byte is 0x25 (U+0425, U+2025, ...) for the escaping '%' and lets the "%n" behind it through
+            for ld in holder.insts():
+                if ld["op"] != "load" or not ld["ty"].startswith("i") or ld.get("bits", 0) <= 8:
+                    continue
+                v_, narrowed_ = ld["id"], None
+                for _hop in range(4):
+                    us_ = [u for u in holder.insts() if any(o.get("k") == "v" and o.get("id") == v_ for o in list(u.get("ops", ())))]
+                    nxt_ = [u for u in us_ if u["op"] in ("trunc", "zext", "sext") and "id" in u]
+                    cm_ = [u for u in us_ if u["op"] == "icmp" and any(o.get("k") == "c" and o.get("v") == 37 for o in u["ops"])]
+                    if cm_ and narrowed_ is not None:
+                        ck.report("C09:n-filter-lookbehind-narrowed:%s:%s" % (name, callee), "D-delegated-format-filter-unsound", holder.loc(narrowed_),
+                                  "%s compares the %d-bit format character in front of a \"%%n\" with '%%' after truncating it to %d bits: every character whose low bits are 0x25 "
+                                  "(U+0425, U+2025, ...) is taken for an escaping '%%' and the \"%%n\" behind it goes to libc %s" % (name, ld["bits"], narrowed_["bits"], callee),
+                                  dict(chain=chain))
+                        break
+                    if len(nxt_) != 1:
+                        break
+                    if nxt_[0]["op"] == "trunc" and nxt_[0]["bits"] < ld["bits"]:
+                        narrowed_ = nxt_[0]
+                    v_ = nxt_[0]["id"]
             passes = None
             if fk in STANDARD_PASSES:
                 passes = filter_passes(prog, holder, hk, call)
